@@ -790,6 +790,76 @@ DEF_PLAIN(4)
 DEF_PLAIN(8)
 DEF_PLAIN(16)
 
+/*
+ * librfn_sim.so is linked with --wrap=memset/memcpy/memmove: block operations the library
+ * performs through libc (explicit calls and the ones the compiler generates) would otherwise be
+ * invisible - no scheduling point inside them, no race-detector event, no bounds check.  They are
+ * performed here byte by byte, each byte a plain access of the calling library code.
+ */
+/* a block that needs no per-byte treatment: nobody else can run (sequential phase) or the bytes
+ * are not in a shared region.  One bounds check for the whole range is enough then. */
+static bool block_is_simple(uintptr_t a, size_t n, bool is_write, uintptr_t pc)
+{
+	if (!rt.active || n == 0)
+		return true;
+	int r = find_region(a, n);
+	bool shared = r >= 0 && (reg[r].flags & SIMRT_SHARED);
+	bool concurrent = rt.mode == SIMRT_IRQ || (rt.mode == SIMRT_THR && rt.in_run_all);
+	if (shared && concurrent)
+		return false;
+	if (r < 0 && !in_stack(a) && !sim_in_lib_data((void *)a, n) && n > 1) {
+		/* not wholly inside one known area: let the per-byte path find the first bad byte */
+		return false;
+	}
+	plain(a, n > 1 && r < 0 && !in_stack(a) ? 1 : n, is_write, pc);
+	return true;
+}
+
+void *__wrap_memset(void *d, int c, size_t n)
+{
+	unsigned char *p = d;
+	uintptr_t pc = PC;
+	if (block_is_simple((uintptr_t)d, n, true, pc))
+		return memset(d, c, n);
+	for (size_t i = 0; i < n; i++) {
+		plain((uintptr_t)(p + i), 1, true, pc);
+		p[i] = (unsigned char)c;
+	}
+	return d;
+}
+
+void *__wrap_memcpy(void *d, const void *s, size_t n)
+{
+	unsigned char *p = d;
+	const unsigned char *q = s;
+	uintptr_t pc = PC;
+	if (block_is_simple((uintptr_t)d, n, true, pc) && block_is_simple((uintptr_t)s, n, false, pc))
+		return memcpy(d, s, n);
+	for (size_t i = 0; i < n; i++) {
+		plain((uintptr_t)(q + i), 1, false, pc);
+		unsigned char v = q[i];
+		plain((uintptr_t)(p + i), 1, true, pc);
+		p[i] = v;
+	}
+	return d;
+}
+
+void *__wrap_memmove(void *d, const void *s, size_t n)
+{
+	unsigned char *p = d;
+	const unsigned char *q = s;
+	uintptr_t pc = PC;
+	if (p <= q || p >= q + n)
+		return __wrap_memcpy(d, s, n);
+	for (size_t i = n; i-- > 0; ) {
+		plain((uintptr_t)(q + i), 1, false, pc);
+		unsigned char v = q[i];
+		plain((uintptr_t)(p + i), 1, true, pc);
+		p[i] = v;
+	}
+	return d;
+}
+
 void __tsan_read_range(void *a, unsigned long n) { plain((uintptr_t)a, n, false, PC); }
 void __tsan_write_range(void *a, unsigned long n) { plain((uintptr_t)a, n, true, PC); }
 
